@@ -77,14 +77,18 @@ def bound (s : K) (x : Nat) : Nat := (roundHE ((x : K) * s)).toNat
 /-- the indices selected by the slice `a:b` of an axis of length `n` (`0 ≤ a`, `0 ≤ b`) -/
 def sliceIdx (a b n : Nat) : List Nat := List.range' a (min b n - a)
 
-/-- sum of the mask over `rows × cols`, row-major, left to right -/
+/-- sum of the mask over `rows × cols`, row-major, left to right.
+`ndarray.mean` adds in a different (pairwise, blocked) order; the two orders give the same binary64 number only when no partial
+sum is rounded — masks of zeros and ones or of multiples of 1/8, the only masks the bit-exact correspondence is run on.  For
+arbitrary mask values the harness compares the real code with the exact rational mean up to the summation error instead. -/
 def sumOver (mask : Nat → Nat → K) (rows cols : List Nat) : K :=
   rows.foldl (fun acc i => cols.foldl (fun acc j => acc + mask i j) acc) ((0 : Nat) : K)
 
 /-- number of pixels of `mask[a:b, c:d]` -/
 def cellCount (n0 n1 a b c d : Nat) : Nat := (sliceIdx a b n0).length * (sliceIdx c d n1).length
 
-/-- `mask[a:b, c:d].mean()` (`sum / count`; an empty slice gives 0/0 = NaN at `Float`) -/
+/-- `mask[a:b, c:d].mean(dtype=numpy.float64)` (`sum / count` in double precision whatever the dtype of the mask — the repaired
+code, `fixes/C14-float32-mask-mean.diff`; an empty slice gives 0/0 = NaN at `Float`) -/
 def cellMean (mask : Nat → Nat → K) (n0 n1 a b c d : Nat) : K :=
   sumOver mask (sliceIdx a b n0) (sliceIdx c d n1) / ((cellCount n0 n1 a b c d : Nat) : K)
 
@@ -104,7 +108,9 @@ def subapCount (K : Type) [Add K] [Sub K] [Mul K] [Div K] [NatCast K] [OfScienti
   let b := cellBounds (K := K) subaps n0 n1 x y
   cellCount n0 n1 b.1 b.2.1 b.2.2.1 b.2.2.2
 
-/-- `subap.mean() >= threshold`; the mean of an empty slice is NaN, for which `>=` is False -/
+/-- `fill >= threshold` with `fill` the double-precision mean of the cell (the MEAN is compared with the threshold, not the sum with
+`threshold * size`: the two differ at binary64 when the cell size is not a power of two); the mean of an empty slice is NaN,
+for which `>=` is False -/
 def isActive (subaps n0 n1 : Nat) (mask : Nat → Nat → K) (thr : K) (x y : Nat) : Bool :=
   subapCount K subaps n0 n1 x y ≠ 0 ∧ thr ≤ subapMean subaps n0 n1 mask x y
 
@@ -149,7 +155,9 @@ def scatterStep (valid : Nat → Nat → Bool) (data : Nat → α) (st : Scatter
     { grid := fun a b => if a = p.1 ∧ b = p.2 then data st.k else st.grid a b, k := st.k + 1 }
   else st
 
-/-- `make_subaps_2d(data, mask)` : `valid x y` is `mask[x, y] == 1`, `nx = mask.shape[0]`, `zero` the initial fill -/
+/-- `make_subaps_2d(data, mask)` : `valid x y` is `mask[x, y] == 1`, `nx = mask.shape[0]`, `zero` the initial fill.
+The map is allocated with the dtype of the DATA (`numpy.zeros(..., dtype=data.dtype)`): its entries live in the payload type `α`,
+the mask only enters through `valid` (so a boolean, integer or single-precision mask cannot change a written value). -/
 def scatter (nx : Nat) (valid : Nat → Nat → Bool) (data : Nat → α) (zero : α) : ScatterState α :=
   (List.range nx).foldl (fun st x =>
     (List.range nx).foldl (fun st y => scatterStep valid data st (x, y)) st) { grid := fun _ _ => zero, k := 0 }
